@@ -344,7 +344,8 @@ def check_op(model, cfg, op, planted, limit, objective=None, sense=None, max_sol
 
     def fail(prop, kind, detail, **kw):
         fails.append(dict(kw, prop=prop, kind=kind, detail=detail, model=model, cfg=cfg, mode=MODE, plane="B",
-                          stream="big", op=op, planted=planted, objective=objective, sense=sense, pass_limit=limit))
+                          stream="big", op=op, planted=planted, objective=objective, sense=sense, pass_limit=limit,
+                          max_sols=max_sols))
 
     which = "shaving" if cfg["calg"] == "shaving" else "bc"
     progress.mark({"model": model, "cfg": cfg, "op": op, "stream": "big"})
@@ -386,6 +387,7 @@ def check_op(model, cfg, op, planted, limit, objective=None, sense=None, max_sol
         why = O.check_solution(model, list(sol))
         if why:
             fail("C01", "invalid_solution", "%s delivered %r: %s" % (op, list(sol), why))
+            fail("C02", "extra", "%s delivered %r which is not a solution: %s" % (op, list(sol), why))
             break
     if len(set(sols)) != len(sols):
         fail("C02", "duplicate_solution", "a solution was delivered twice among the first %d" % len(sols))
@@ -452,6 +454,11 @@ def run_big(task):
             res["truncated"] = True
             break
         model, plant = gen_big(rnd, task.get("gen"))
+        circuit = it % 4 == 3
+        if circuit:
+            # circuits of 6-11 vertices with side constraints: up to 400 solutions per run, each one validated
+            model, plant = gen_circuit_focus(rnd)
+            cnt("big.circuit_models")
         if it % 3 == 1:
             model, plant = pad_model(model, plant, rnd)
             cnt("big.models_behind_250+_instantiated_variables")
@@ -469,7 +476,7 @@ def run_big(task):
                 cnt("big.constraints_arity>=7")
         try:
             # (a) the full model: whatever is delivered must be a solution; a completed run must contain the planted one
-            fails, cut, sols = check_op(model, cfg, "full", plant, limit, cnt=cnt)
+            fails, cut, sols = check_op(model, cfg, "full", plant, limit, cnt=cnt, max_sols=400 if circuit else 30)
             keep(fails)
             cnt("big.runs_full")
             if cut:
@@ -530,7 +537,7 @@ def replay_big(task):
     w = task["witness"]
     fails, cut, out = check_op(w["model"], w["cfg"], w.get("op", "full"), w.get("planted"), w.get("pass_limit", 20000),
                                objective=w.get("objective"), sense=w.get("sense"),
-                               max_sols=300 if w.get("op") == "partial" else 30)
+                               max_sols=w.get("max_sols") or (300 if w.get("op") == "partial" else 30))
     return {"fails": [f for f in fails if f["prop"] == task["prop"]]}
 
 
